@@ -257,4 +257,150 @@ theorem run_diverges {moots : Nat → List Nat} (C : Nat → Prop)
         · exact ⟨k, List.mem_append_left _ hk, hck⟩
       rw [ih _ this]; rfl
 
+/-! ### the repaired clone worklist (lineage check) -/
+
+/-- work bound of a worklist entry that may still grow `d` levels, with at most `B` moots per framer -/
+def wBound (B : Nat) : Nat → Nat
+  | 0 => 1
+  | d + 1 => 1 + B * wBound B d
+
+theorem wBound_pos (B d : Nat) : 1 ≤ wBound B d := by cases d <;> simp [wBound] <;> omega
+
+def totalC (n B : Nat) (wl : List (Nat × List Nat)) : Nat := (wl.map (fun p => wBound B (n - p.2.length))).sum
+
+theorem totalC_append (n B : Nat) (a b : List (Nat × List Nat)) :
+    totalC n B (a ++ b) = totalC n B a + totalC n B b := by
+  simp [totalC, List.sum_append]
+
+theorem sum_const_le (c B : Nat) : ∀ (l : List Nat), l.length ≤ B → (l.map (fun _ => c)).sum ≤ B * c := by
+  intro l
+  induction l generalizing B with
+  | nil => intro _; simp
+  | cons a l ih =>
+    intro h
+    cases B with
+    | zero => simp at h
+    | succ B =>
+      have := ih B (by simpa using h)
+      simp only [List.map_cons, List.sum_cons]
+      rw [Nat.succ_mul]; omega
+
+/-- a lineage is a duplicate-free list of framers `< n` -/
+def LinOK (n : Nat) (lin : List Nat) : Prop := lin.Nodup ∧ ∀ x ∈ lin, x < n
+
+theorem LinOK_snoc {n : Nat} {lin : List Nat} {j : Nat} (h : LinOK n lin) (hj : j < n) (hn : j ∉ lin) :
+    LinOK n (lin ++ [j]) := by
+  refine ⟨?_, ?_⟩
+  · rw [List.nodup_append]
+    refine ⟨h.1, by simp, ?_⟩
+    intro a ha b hb
+    simp at hb
+    subst hb
+    intro e; subst e; exact hn ha
+  · intro x hx
+    rcases List.mem_append.mp hx with hx | hx
+    · exact h.2 x hx
+    · simp at hx; omega
+
+/-- the repaired worklist ends on every clone table over `n` framers with at most `B` moots each -/
+theorem runChecked_total {moots : Nat → List Nat} (n B : Nat) (hb : ∀ k j, j ∈ moots k → j < n)
+    (hB : ∀ k, (moots k).length ≤ B) :
+    ∀ (m : Nat) (wl : List (Nat × List Nat)), (∀ p ∈ wl, LinOK n p.2) → totalC n B wl ≤ m →
+      ∃ r, runChecked moots (m + 1) wl = some r := by
+  intro m
+  induction m with
+  | zero =>
+    intro wl _ ht
+    cases wl with
+    | nil => exact ⟨_, rfl⟩
+    | cons p rest =>
+      have := wBound_pos B (n - p.2.length)
+      simp [totalC] at ht
+      omega
+  | succ m ih =>
+    intro wl hl ht
+    cases wl with
+    | nil => exact ⟨_, rfl⟩
+    | cons p rest =>
+      obtain ⟨k, lin⟩ := p
+      rw [runChecked]
+      by_cases hc : (moots k).any (fun j => lin.contains j) = true
+      · rw [if_pos hc]; exact ⟨_, rfl⟩
+      · rw [if_neg hc]
+        have hlin : LinOK n lin := hl (k, lin) (List.mem_cons_self ..)
+        have hfresh : ∀ j ∈ moots k, j ∉ lin := by
+          intro j hj hin
+          apply hc
+          rw [List.any_eq_true]
+          exact ⟨j, hj, by simpa using hin⟩
+        let kids : List (Nat × List Nat) := (moots k).map (fun j => (j, lin ++ [j]))
+        have hkids : ∀ q ∈ kids, LinOK n q.2 := by
+          intro q hq
+          obtain ⟨j, hj, rfl⟩ := List.mem_map.mp hq
+          exact LinOK_snoc hlin (hb k j hj) (hfresh j hj)
+        have hl' : ∀ q ∈ rest ++ kids, LinOK n q.2 := by
+          intro q hq
+          rcases List.mem_append.mp hq with hq | hq
+          · exact hl q (List.mem_cons_of_mem _ hq)
+          · exact hkids q hq
+        have ht' : totalC n B (rest ++ kids) ≤ m := by
+          have e1 : totalC n B ((k, lin) :: rest) = wBound B (n - lin.length) + totalC n B rest := by
+            simp [totalC]
+          rw [e1] at ht
+          rw [totalC_append]
+          cases hmk : moots k with
+          | nil =>
+            have : kids = [] := by simp [kids, hmk]
+            rw [this]
+            have := wBound_pos B (n - lin.length)
+            simp [totalC] at *
+            omega
+          | cons j js =>
+            have hj : j ∈ moots k := by rw [hmk]; exact List.mem_cons_self ..
+            have hlen := nodup_bounded_length n _ (LinOK_snoc hlin (hb k j hj) (hfresh j hj)).1
+              (LinOK_snoc hlin (hb k j hj) (hfresh j hj)).2
+            simp at hlen
+            obtain ⟨d, hd⟩ : ∃ d, n - lin.length = d + 1 := ⟨n - lin.length - 1, by omega⟩
+            have ek : totalC n B kids = ((moots k).map (fun _ => wBound B d)).sum := by
+              simp only [totalC, kids, List.map_map, Function.comp_def, List.length_append, List.length_cons,
+                List.length_nil]
+              have : n - (lin.length + (0 + 1)) = d := by omega
+              rw [this]
+            have := sum_const_le (wBound B d) B (moots k) (hB k)
+            rw [ek]
+            rw [hd] at ht
+            simp only [wBound] at ht
+            omega
+        obtain ⟨r, hr⟩ := ih (rest ++ kids) hl' ht'
+        exact ⟨r.map (· + 1), by rw [hr]; rfl⟩
+
+/-- the repair changes nothing where it does not raise: the same framers are presolved as by the loop as found -/
+theorem runChecked_conservative {moots : Nat → List Nat} :
+    ∀ (fuel : Nat) (wl : List (Nat × List Nat)) (c : Nat), runChecked moots fuel wl = some (some c) →
+      run moots fuel (wl.map (·.1)) = some c := by
+  intro fuel
+  induction fuel with
+  | zero => intro wl c h; simp [runChecked] at h
+  | succ f ih =>
+    intro wl c h
+    cases wl with
+    | nil => simp [runChecked] at h; subst h; rfl
+    | cons p rest =>
+      obtain ⟨k, lin⟩ := p
+      rw [runChecked] at h
+      split at h
+      · cases h
+      · cases hr : runChecked moots f (rest ++ (moots k).map (fun j => (j, lin ++ [j]))) with
+        | none => rw [hr] at h; cases h
+        | some r =>
+          rw [hr] at h
+          cases r with
+          | none => cases h
+          | some c' =>
+            have := ih _ c' hr
+            simp only [List.map_append, List.map_map, Function.comp_def, List.map_id'] at this
+            simp only [List.map_cons]
+            rw [run, this]
+            simpa using h
+
 end Ioflo.Worklist
